@@ -14,9 +14,10 @@ inductive TypeOpt where
   | auto | content | directory | origin | snapshot
   deriving DecidableEq, Repr
 
-/-- `--verify`: absent, a SWHID equal to the computed one, or a different one -/
+/-- `--verify`: absent, a core SWHID equal to the computed one, a different one, or a value that
+is not a core SWHID at all (rejected by the option's parameter type before the command runs) -/
 inductive VerifyOpt where
-  | absent | matching | nonMatching
+  | absent | matching | nonMatching | malformed
   deriving DecidableEq, Repr
 
 structure Cfg where
@@ -105,7 +106,8 @@ def identifyObject (c : Cfg) : ObjRes :=
 /-- the `identify` command for a single OBJECT argument -/
 def identify (c : Cfg) : Outcome :=
   let recursive := c.recursive && isdir c.kind      -- "recursive option disabled, input is not a directory"
-  if recursive then
+  if c.verify = .malformed then .usageError         -- CoreSWHIDParamType.convert → self.fail
+  else if recursive then
     if c.verify ≠ .absent then .usageError
     else if c.type ≠ .auto ∧ c.type ≠ .directory then .usageError
     else .print .directory true c.filename
@@ -119,6 +121,7 @@ def identify (c : Cfg) : Outcome :=
       | .absent => .print d false c.filename
       | .matching => .exit0 d
       | .nonMatching => .exit1 d
+      | .malformed => .usageError
 
 /-! ### the specification, written from the statement and the command's help text -/
 
@@ -154,7 +157,9 @@ def expected (c : Cfg) : Outcome :=
   match designated c.kind c.deref c.type with
   | none => .unspecified
   | some d =>
-    if recursiveApplies c then
+    -- `--verify` takes a core SWHID: anything else is a usage error
+    if c.verify = .malformed then .usageError
+    else if recursiveApplies c then
       -- documented as unsupported: verification of a recursive identification; recursion for
       -- a type other than directory
       if c.verify ≠ .absent then .usageError
@@ -165,5 +170,6 @@ def expected (c : Cfg) : Outcome :=
       | .absent => .print d false c.filename
       | .matching => .exit0 d
       | .nonMatching => .exit1 d
+      | .malformed => .usageError
 
 end Swh.Cli
